@@ -2,6 +2,7 @@
 import math
 
 import numpy as np
+from hypothesis import strategies as st
 
 from .. import e2e
 from .. import spec as S
@@ -48,8 +49,48 @@ def budget(tier):
     return 6000 if tier == "quick" else 250000
 
 
+@st.composite
+def strategy_c07(draw):
+    sp = draw(S.problems(PROFILE))
+    if draw(st.integers(0, 5)) == 0:
+        # "exact thresholds": a first run without target yields the per-evaluation values; the case then
+        # re-runs with feasibility_tol equal to the violation and target equal to the objective value of one
+        # evaluation (requests satisfied with equality), preferably one preceded by a lower, more violated point
+        sp = dict(sp)
+        sp["exact_thresholds"] = draw(st.integers(1, 40))
+    return sp
+
+
 def strategy(tier):
-    return S.problems(PROFILE)
+    return strategy_c07()
+
+
+def exact_thresholds(spec, out):
+    """Returns the spec to run: the given one, or its exact-threshold variant derived from a dry run."""
+    import copy
+    from ..engine import dec, enc
+    from . import c09
+
+    k = spec.get("exact_thresholds")
+    base = dec(copy.deepcopy({k_: v for k_, v in spec.items() if k_ != "exact_thresholds"}))
+    if not k or base["obj"]["kind"] == "none":
+        return enc(base)
+    dry = copy.deepcopy(base)
+    dry["options"].pop("target", None)
+    dry["callback"] = {"form": "none"}
+    bd, td = e2e.run(enc(dry))
+    if td.exc is not None or td.result is None:
+        return enc(base)
+    rows = c09.evaluate_log(bd, td)
+    if not rows or any(r is None for r in rows):
+        return enc(base)
+    ep = c09.exact_plan(rows, 1 + (k - 1) % len(rows), out)
+    if ep is None:
+        return enc(base)
+    real = copy.deepcopy(dry)
+    real["options"]["feasibility_tol"], real["options"]["target"] = ep
+    out.label("exact-thresholds")
+    return enc(real)
 
 
 def callback_stopped(b):
@@ -120,6 +161,7 @@ def check_status(b, t, out, prefix="C07"):
 
 def run_case(spec):
     out = Outcome()
+    spec = exact_thresholds(spec, out)
     b, t = e2e.run(spec)
     if t.exc is not None:
         out.label("crash:%s@%s" % (t.exc[0], t.exc[2]))
